@@ -126,8 +126,11 @@ def set_fs(rng):
     fs = float(rng.choice([1e9, 1.6e10, 8e10, 1e11, 1e12]))
     sps = int(rng.choice([4, 8, 16]))
     with core.quiet():
-        T.gv(sps=sps, fs=fs)
-    return fs
+        if rng.integers(5) == 0:      # a sampling rate that is not an integer multiple of the slot rate: everything follows gv.fs, not sps*R
+            T.gv(R=fs / float(rng.choice([2.5, 3.3, 7.6])), fs=fs)
+        else:
+            T.gv(sps=sps, fs=fs)
+    return float(T.gv.fs)
 
 
 def w_dm(ctx, rng, i):
